@@ -43,16 +43,50 @@ Theorem number_inf_roundtrip n p : number_of_mp (mp_of_number (BInf n p)) = Ok (
 Proof. reflexivity. Qed.
 
 (* an unknown of unknown type carries no refinements; an empty refinement list decodes to the plain unknown *)
-Theorem unknown_empty_refs norm t : unknown_of_mp norm [] t = Ok (v_unknown t).
+Theorem unknown_empty_refs norm t : unknown_of_mp norm 0 [] t = Ok (v_unknown t).
 Proof. reflexivity. Qed.
-Theorem unknown_dyn_ignores_refs norm refs : unknown_of_mp norm refs TDyn = Ok (v_unknown TDyn).
-Proof. destruct refs; reflexivity. Qed.
+Theorem unknown_dyn_ignores_refs norm n items : unknown_of_mp norm n items TDyn = Ok (v_unknown TDyn).
+Proof. destruct items; [destruct n|]; reflexivity. Qed.
 
 (* the refinement replay never panics: every builder panic is turned into a decoding error *)
-Theorem unknown_of_mp_no_panic norm refs t : unknown_of_mp norm refs t <> Panic.
+Theorem unknown_of_mp_no_panic norm n items t : unknown_of_mp norm n items t <> Panic.
 Proof.
-  unfold unknown_of_mp. destruct refs as [|r refs]; [discriminate|].
-  destruct (is_dyn t); [discriminate|].
-  match goal with |- context [fold_left ?s ?l ?a] => destruct (fold_left s l a) as [b|e| |] end; try discriminate.
-  destruct (rb_new_value b); discriminate.
+  unfold unknown_of_mp.
+  destruct items as [|i items]; [destruct n|]; try discriminate;
+    (destruct (is_dyn t); [discriminate|];
+     match goal with |- context [replay_refs ?a ?b ?c ?d ?e] => destruct (replay_refs a b c d e) as [b0|e0| |] end;
+     try discriminate; destruct (rb_new_value b0); discriminate).
 Qed.
+
+(* ---------- decoder safety on the model (C17) ---------- *)
+Lemma bind_no_panic {A B} (r : res A) (k : A -> res B) :
+  r <> Panic -> (forall a, k a <> Panic) -> bind r k <> Panic.
+Proof. intros Hr Hk. destruct r; cbn [bind]; try discriminate; auto. Qed.
+
+(* the implied type of any item tree: an error or a type, never a panic, whatever the fuel *)
+Theorem mp_implied_no_panic norm f m : mp_implied_at norm f m <> Panic.
+Proof.
+  revert m. induction f as [|f IH]; intros m; [discriminate|].
+  destruct m; cbn [mp_implied_at]; try discriminate.
+  - apply bind_no_panic; [|discriminate].
+    induction l as [|x l IHl]; [discriminate|].
+    apply bind_no_panic; [apply IH|]. intros t. apply bind_no_panic; [exact IHl|discriminate].
+  - apply bind_no_panic; [|discriminate].
+    induction l as [|kv l IHl]; [discriminate|].
+    destruct (dec_string (fst kv)); [|discriminate].
+    apply bind_no_panic; [apply IH|]. intros t. apply bind_no_panic; [exact IHl|discriminate].
+Qed.
+
+Theorem mp_implied_type_no_panic norm ms : mp_implied_type norm ms <> Panic.
+Proof.
+  destruct ms as [|m [|m' ms]]; cbn [mp_implied_type]; try discriminate.
+  - apply mp_implied_no_panic.
+  - pose proof (mp_implied_no_panic norm (S (mp_size m)) m) as H.
+    destruct (mp_implied_at norm (S (mp_size m)) m); try discriminate. contradiction.
+Qed.
+
+(* extension items that are not this library's refinement encoding, and broken items, are refused *)
+Theorem mp_foreign_ext_refused norm jp f t : mp_unmarshal_at norm jp (S f) MExt t = Err OtherError.
+Proof. reflexivity. Qed.
+Theorem mp_bad_item_refused norm jp f t : mp_unmarshal_at norm jp (S f) MBad t = Err OtherError.
+Proof. reflexivity. Qed.
